@@ -9,7 +9,9 @@ Inductive case :=
        (o_kg o_ridx o_route : N) (o_dbkey o_subjkey o_timerkey : bytes) (o_owns_db o_owns_timer : bool)
 (* a real Operator deployed several times in a row (same process) into assemblies of different sizes:
    per deployment (n, own index, reported key-group range, per key (subject, state key, timer key at t=0, owns state key, owns timer key)) *)
-| DeployC (count : N) (deploys : list (N * N * (N * N) * list (bytes * bytes * bytes * bool * bool))).
+(* o_lost = number of keys owned by this deployment whose timer, stored through the operator's timer store, was NOT found
+   by a fresh timer store reloading the operator's range from the database (0 expected) *)
+| DeployC (count : N) (deploys : list (N * N * (N * N) * N * list (bytes * bytes * bytes * bool * bool))).
 
 Definition pair_eqb (a b : N * N) := (fst a =? fst b) && (snd a =? snd b).
 Fixpoint list_eqb {A} (eqb : A -> A -> bool) (a b : list A) : bool :=
@@ -69,11 +71,12 @@ Definition check_case (c : case) : list N :=
   | DeployC _ _ => []
   end.
 
-Definition check_deploy (count : N) (d : N * N * (N * N) * list (bytes * bytes * bytes * bool * bool)) : list N :=
-  let '(n, own, o_range, keys) := d in
+Definition check_deploy (count : N) (d : N * N * (N * N) * N * list (bytes * bytes * bytes * bool * bool)) : list N :=
+  let '(n, own, o_range, o_lost, keys) := d in
   let rs := kg_ranges count n in
   let rng := nth (N.to_nat own) rs (0, 0) in
   (if pair_eqb o_range rng then [] else [19]) ++
+  (if o_lost =? 0 then [] else [110]) ++
   flat_map (fun k : bytes * bytes * bytes * bool * bool =>
     let '(subject, o_dbkey, o_timerkey, o_owns_db, o_owns_timer) := k in
     let kg := key_group count subject in
